@@ -16,7 +16,7 @@ Ltac ssolve :=
   repeat match goal with
   | |- _ /\ _ => split
   | |- exists _, _ => eexists
-  | |- _ = _ => first [ reflexivity | solve [norm; reflexivity] ]
+  | |- _ = _ => reflexivity
   | |- _ <> _ => eassumption
   | |- forallb _ _ = true => eassumption
   | |- length _ = _ => eassumption
@@ -69,17 +69,22 @@ Proof. intros H. unfold sh_mm. shape H. Qed.
 
 (* GetManifestTag *)
 Definition sh_tag (t1 t2 : list N) (c : list (list N)) : Prop :=
-  t2 = [] /\ exists pre t x, c = [t; x] /\ t1 = pre ++ SL :: s_manifests ++ SL :: s_tags ++ SL :: t ++ SL :: x ++ SL :: s_link
-    /\ pre_ok pre /\ cls cs_noslash t
-    /\ (x = s_current \/ exists h, x = s_index ++ SL :: s_sha256 ++ SL :: h /\ cls c09az h).
+  t2 = [] /\ exists pre t x, c = [t; x]
+    /\ ((x = s_current /\ t1 = pre ++ SL :: s_manifests ++ SL :: s_tags ++ SL :: t ++ SL :: s_current ++ SL :: s_link)
+        \/ exists h, x = s_index ++ SL :: s_sha256 ++ SL :: h
+             /\ t1 = pre ++ SL :: s_manifests ++ SL :: s_tags ++ SL :: t ++ SL :: s_index ++ SL :: s_sha256 ++ SL :: h ++ SL :: s_link
+             /\ cls c09az h)
+    /\ pre_ok pre /\ cls cs_noslash t.
 Lemma shape_tag t1 t2 c : D ast_get_manifest_tag t1 t2 c -> sh_tag t1 t2 c.
 Proof. intros H. unfold sh_tag. shape H. Qed.
 
 (* GetManifestDigest *)
 Definition sh_mdigest (t1 t2 : list N) (c : list (list N)) : Prop :=
-  t2 = [] /\ exists pre x h, t1 = pre ++ SL :: s_manifests ++ SL :: x ++ SL :: s_sha256 ++ SL :: h ++ SL :: s_link /\ c = [h]
-    /\ pre_ok pre /\ cls c09az h
-    /\ (x = s_revisions \/ exists mid, x = s_tags ++ SL :: mid ++ SL :: s_index /\ pre_ok mid).
+  t2 = [] /\ exists pre h, c = [h]
+    /\ (t1 = pre ++ SL :: s_manifests ++ SL :: s_revisions ++ SL :: s_sha256 ++ SL :: h ++ SL :: s_link
+        \/ exists mid, t1 = pre ++ SL :: s_manifests ++ SL :: s_tags ++ SL :: mid ++ SL :: s_index ++ SL :: s_sha256 ++ SL :: h ++ SL :: s_link
+             /\ pre_ok mid)
+    /\ pre_ok pre /\ cls c09az h.
 Lemma shape_mdigest t1 t2 c : D ast_get_manifest_digest t1 t2 c -> sh_mdigest t1 t2 c.
 Proof. intros H. unfold sh_mdigest. shape H. Qed.
 
@@ -109,3 +114,12 @@ Lemma shape_repo t1 t2 c : D ast_get_repo t1 t2 c -> sh_repo t1 c.
 Proof. intros H. unfold sh_repo. shape H. Qed.
 Lemma shape_repo_prefix t1 t2 c : D ast_get_repo_prefix t1 t2 c -> sh_repo t1 c.
 Proof. intros H. unfold sh_repo. shape H. Qed.
+
+(* break a shape hypothesis into its components *)
+Ltac dS H :=
+  unfold sh_uuid, sh_mu, sh_muh, sh_algo, sh_mm, sh_tag, sh_mdigest, sh_layer, sh_blob, sh_repo, sh_hs, cls, pre_ok in H;
+  repeat match goal with
+  | H : exists _, _ |- _ => destruct H
+  | H : _ /\ _ |- _ => destruct H
+  | H : _ \/ _ |- _ => destruct H
+  end.
